@@ -237,7 +237,8 @@ struct History {
       if (everything) { for (auto& it : items) observe(it); C.count("full_reobservations"); return; }
       for (int k = 0; k < 48; ++k) observe(items[rng.below(items.size())]);
       // the most recent nodes and the oldest ones are the likeliest victims of a relocating store
-      for (std::size_t k = 0; k < 16 && k < items.size(); ++k) { observe(items[items.size() - 1 - k]); observe(items[k]); }
+      for (std::size_t k = 0; k < 16 && k < items.size(); ++k) observe(items[items.size() - 1 - k]);
+      for (std::size_t k = 0; k < 40 && k < items.size(); ++k) observe(items[k]);        // the grown containers and their parts come first
    }
 
    const Identifier& id(const char* p, int i) { return lex.get_identifier(widen(std::string(p) + std::to_string(i))); }
@@ -252,6 +253,15 @@ struct History {
       en = lex.make_enum(greg, Enum::Kind::Scoped); cls = lex.make_class(greg); ns = lex.make_namespace(greg); mp = lex.make_mapping(greg, Mapping_level { 1 }); blk = lex.make_block(greg);
       xl = lex.make_expr_list(); chain = greg.make_subregion(); prag = lex.make_pragma(); un = lex.make_union(greg);
       for (const Node* n : std::initializer_list<const Node*> { en, cls, ns, mp, blk, xl, chain, prag, un, &unit.global_namespace(), unit.global_region(), &unit.global_region()->bindings() }) reg(*n, "container grown by the history");
+      // ... and what those containers hand out: their regions, scopes (asked by name and by type in the fingerprint), parameter lists
+      {
+         Collector col;
+         for (const Node* n : std::initializer_list<const Node*> { en, cls, ns, mp, blk, un }) col.add(*n);
+         col.add(mp->parameters()); col.add(mp->parameters().region()); col.add(mp->parameters().region().bindings());
+         const std::size_t roots = col.nodes.size();
+         for (std::size_t i = 0; i < roots; ++i) col.expand(*col.nodes[i]);
+         for (auto n : col.nodes) reg(*n, "part of a container grown by the history: " + demangle(typeid(*n).name()));
+      }
       absorb();
    }
 
